@@ -30,7 +30,7 @@ RULE = (
     "(file bytes digest, encoding, scenario digest)."
 )
 TIERS = {
-    "quick": {"runs": 150, "budget_s": 60, "min_runs": 20, "run_timeout_s": 240},
+    "quick": {"runs": 150, "budget_s": 45, "min_runs": 20, "run_timeout_s": 240},
     "thorough": {"runs": 10000, "budget_s": 800, "min_runs": 400, "run_timeout_s": 600},
 }
 COMPONENTS_REAL = [
